@@ -7,6 +7,7 @@
 #include <rapidcheck.h>
 #include <fcntl.h>
 #include <trompeloeil.hpp>
+#include <limits>
 #include <functional>
 #include <memory>
 #include <regex>
@@ -1326,12 +1327,113 @@ static bool lvalue_laws_all(std::string& why, int only_a = -1, int only_b = -1, 
   return true;
 }
 
+// ---- relational matchers on values that are not totally ordered -------------------------------------------------------
+// C10 states each relational matcher through its own operator ("le(v) accepts x exactly when x<=v"). On a total order
+// `x<=v` and `!(x>v)` coincide; they differ for IEEE NaN and for user types with a partial order. Exhaustive over two
+// small domains: doubles {-inf, -1.5, -0.0, 0.0, 1, 2.5, inf, NaN} and the subsets of {0,1,2} ordered by inclusion.
+struct PO { unsigned bits; };
+static bool operator==(PO a, PO b) { return a.bits == b.bits; }
+static bool operator!=(PO a, PO b) { return a.bits != b.bits; }
+static bool operator<=(PO a, PO b) { return (a.bits & ~b.bits) == 0; }
+static bool operator>=(PO a, PO b) { return (b.bits & ~a.bits) == 0; }
+static bool operator<(PO a, PO b) { return a <= b && a.bits != b.bits; }
+static bool operator>(PO a, PO b) { return a >= b && a.bits != b.bits; }
+static std::ostream& operator<<(std::ostream& os, PO a) { return os << "PO{" << a.bits << "}"; }
+template <typename T> struct OrdDom;
+template <> struct OrdDom<double> {
+  static constexpr int N = 8;
+  static double at(int i) {
+    static const double v[N] = {-std::numeric_limits<double>::infinity(), -1.5, -0.0, 0.0, 1.0, 2.5, std::numeric_limits<double>::infinity(), std::numeric_limits<double>::quiet_NaN()};
+    return v[i];
+  }
+  static const char* name() { return "double"; }
+};
+template <> struct OrdDom<PO> {
+  static constexpr int N = 8;
+  static PO at(int i) { return PO{static_cast<unsigned>(i)}; }
+  static const char* name() { return "PO"; }
+};
+template <typename T>
+static bool ord_expect(int rel, T const& x, T const& v) {
+  switch (rel) { case 0: return x == v; case 1: return x != v; case 2: return x < v; case 3: return x <= v; case 4: return x > v; default: return x >= v; }
+}
+static const char* ord_rel_name(int rel) { static const char* n[] = {"eq", "ne", "lt", "le", "gt", "ge"}; return n[rel]; }
+template <typename T, typename F>
+static auto ord_with(int rel, bool typed, T const& v, F&& f) {
+  using namespace trompeloeil;
+  if (typed) switch (rel) { case 0: return f(eq<T>(v)); case 1: return f(ne<T>(v)); case 2: return f(lt<T>(v)); case 3: return f(le<T>(v)); case 4: return f(gt<T>(v)); default: return f(ge<T>(v)); }
+  switch (rel) { case 0: return f(eq(v)); case 1: return f(ne(v)); case 2: return f(lt(v)); case 3: return f(le(v)); case 4: return f(gt(v)); default: return f(ge(v)); }
+}
+template <typename T>
+static bool ord_laws_one(int rel, int ix, int iv, bool typed, std::string& why) {
+  const T x = OrdDom<T>::at(ix), v = OrdDom<T>::at(iv);
+  const bool want = ord_expect(rel, x, v);
+  auto fail = [&](const char* form, bool got) {
+    std::ostringstream os;
+    os << "relational matcher on a not totally ordered domain: " << form << " with " << (typed ? "explicitly typed " : "duck-typed ") << ord_rel_name(rel) << "(v), type "
+       << OrdDom<T>::name() << ", x = " << x << ", v = " << v << ": accepted = " << got << ", the operator says " << want;
+    why = os.str();
+    return false;
+  };
+  return ord_with(rel, typed, v, [&](auto m) {
+    bool g = trompeloeil::param_matches(m, std::cref(x));
+    if (g != want) return fail("m", g);
+    auto n = !m;
+    g = trompeloeil::param_matches(n, std::cref(x));
+    if (g != !want) return fail("!m", g);
+    g = trompeloeil::param_matches(trompeloeil::any_of(m, m), std::cref(x));
+    if (g != want) return fail("any_of(m, m)", g);
+    g = trompeloeil::param_matches(trompeloeil::all_of(m, trompeloeil::_), std::cref(x));
+    if (g != want) return fail("all_of(m, _)", g);
+    g = trompeloeil::param_matches(trompeloeil::none_of(m), std::cref(x));
+    if (g != !want) return fail("none_of(m)", g);
+    T const* px = &x;
+    g = trompeloeil::param_matches(*m, std::cref(px));
+    if (g != want) return fail("*m on a pointer to x", g);
+    return true;
+  });
+}
+static bool ord_laws_all(std::string& why, int only_t = -1, int only_rel = -1, int only_x = -1, int only_v = -1, int only_typed = -1) {
+  for (int t = 0; t < 2; ++t) {
+    if (only_t >= 0 && t != only_t) continue;
+    for (int rel = 0; rel < 6; ++rel) {
+      if (only_rel >= 0 && rel != only_rel) continue;
+      for (int ix = 0; ix < 8; ++ix) {
+        if (only_x >= 0 && ix != only_x) continue;
+        for (int iv = 0; iv < 8; ++iv) {
+          if (only_v >= 0 && iv != only_v) continue;
+          for (int typed = 0; typed < 2; ++typed) {
+            if (only_typed >= 0 && typed != only_typed) continue;
+            ST.evaluations++;
+            bool unordered = t == 0 ? (ix == 7 || iv == 7) : !(OrdDom<PO>::at(ix) <= OrdDom<PO>::at(iv)) && !(OrdDom<PO>::at(ix) >= OrdDom<PO>::at(iv));
+            ST.label(unordered ? "relational_on_unordered_pair" : "relational_on_ordered_pair_of_partial_domain");
+            bool good = t == 0 ? ord_laws_one<double>(rel, ix, iv, typed != 0, why) : ord_laws_one<PO>(rel, ix, iv, typed != 0, why);
+            if (!good) {
+              why += "\nordlaw " + std::to_string(t) + " " + std::to_string(rel) + " " + std::to_string(ix) + " " + std::to_string(iv) + " " + std::to_string(typed);
+              return false;
+            }
+          }
+        }
+      }
+    }
+  }
+  return true;
+}
+
 int do_replay(const std::string& path, bool verbose) {
   {
     // replay of a named-lvalue law case: a line `lvlaw <a> <b> <rel>`
     std::istringstream in(vc::read_file(path));
     std::string line;
     while (std::getline(in, line)) {
+      if (line.rfind("ordlaw ", 0) == 0) {
+        int t = 0, rel = 0, x = 0, v = 0, ty = 0;
+        sscanf(line.c_str() + 7, "%d %d %d %d %d", &t, &rel, &x, &v, &ty);
+        std::string why;
+        bool good = ord_laws_all(why, t, rel, x, v, ty);
+        if (verbose) printf("replay %s: relational law %d %d %d %d %d: %s\n%s\n", path.c_str(), t, rel, x, v, ty, good ? "passes" : "FAILS", why.c_str());
+        return good ? 0 : 1;
+      }
       if (line.rfind("lvlaw ", 0) == 0) {
         int a = 0, b = 0, rel = 0;
         sscanf(line.c_str() + 6, "%d %d %d", &a, &b, &rel);
@@ -1415,12 +1517,12 @@ int main(int argc, char** argv) {
   {
     // named-lvalue laws: small, exhaustive over the string pool, always run first
     std::string why;
-    if (!lvalue_laws_all(why)) {
+    if (!lvalue_laws_all(why) || !ord_laws_all(why)) {
       std::string path = A.faildir + "/m_fail." + A.prop + "." + std::to_string(getpid()) + ".txt";
       std::string txt = "# engine=M prop=C10\n";
       std::istringstream w(why);
       std::string l, last;
-      while (std::getline(w, l)) { if (l.rfind("lvlaw ", 0) == 0) last = l; else txt += "# " + l + "\n"; }
+      while (std::getline(w, l)) { if (l.rfind("lvlaw ", 0) == 0 || l.rfind("ordlaw ", 0) == 0) last = l; else txt += "# " + l + "\n"; }
       vc::write_file(path, txt + last + "\n");
       g_last_fail = path;
       if (!A.has("quiet")) fprintf(stderr, "%s\n", why.c_str());
